@@ -541,11 +541,6 @@ def ap3_run(ctx, wd, pool):
     if not res.ok:
         raise tlc.MachineryError('Ap3File.tla: %s\n%s' % (res.violation, res.out[-1500:]))
     tlc.check_coverage(res, ['Eval'], 'Ap3File')
-    for wit in ('W_TwoOutputs', 'W_IsotopeAndMacro'):
-        wcfg = tlc.write_cfg(os.path.join(wd, wit + '.cfg'), constants=dict(consts, MaxZones=1), invariants=[wit], deadlock=False)
-        wres = tlc.run(AP3, wcfg, coverage=False, workers=4)
-        if wres.violation != ('invariant', wit):
-            raise tlc.MachineryError('witness %s not reachable in Ap3File.tla' % wit)
     tasks = []
     for st in tlc.read_dump(dump):
         if str(st['pc']) != 'done':
@@ -633,13 +628,22 @@ def run_c10(ctx):
             if any(int(r['ne']) > 1 or int(r['nt']) > 1 for r in d['resps']):
                 ctx.distinct(('t4', json.dumps(plain(d), sort_keys=True), int(st['req'])))
         os.remove(dump + '.dump')
-    for wit in WITNESSES:
-        cfg = tlc.write_cfg(os.path.join(wd, wit + '.cfg'), constants=_consts(2, 1, 1, 2, 2, True), invariants=[wit], deadlock=False)
-        res = tlc.run(SPEC, cfg, coverage=False, workers=4)
-        if res.violation != ('invariant', wit):
-            raise tlc.MachineryError('witness %s not reachable in T4Doc.tla' % wit)
+    from concurrent.futures import ThreadPoolExecutor
+    with ThreadPoolExecutor(max_workers=5) as ex:      # witnesses of both modules: independent TLC runs, in parallel
+        futs = []
+        for wit in WITNESSES:
+            cfg = tlc.write_cfg(os.path.join(wd, wit + '.cfg'), constants=_consts(2, 1, 1, 2, 2, True), invariants=[wit],
+                                deadlock=False)
+            futs.append((wit, 'T4Doc.tla', ex.submit(tlc.run, SPEC, cfg, coverage=False, workers=2)))
+        for wit in ('W_TwoOutputs', 'W_IsotopeAndMacro'):
+            cfg = tlc.write_cfg(os.path.join(wd, wit + '.cfg'), invariants=[wit], deadlock=False,
+                                constants={'MaxOutputs': 2, 'MaxZones': 1, 'MaxIsotopes': 2, 'MaxResults': 2, 'NG': 3})
+            futs.append((wit, 'Ap3File.tla', ex.submit(tlc.run, AP3, cfg, coverage=False, workers=2)))
+        for wit, mod, fut in futs:
+            if fut.result().violation != ('invariant', wit):
+                raise tlc.MachineryError('witness %s not reachable in %s' % (wit, mod))
     rng = ctx.rng
-    n_random = ctx.pick(400, 6000)
+    n_random = ctx.pick(300, 6000)
     randoms = []
     for cid in range(1, n_random + 1):
         printed, batch = random_printed(rng)
